@@ -1,6 +1,10 @@
+mod alloc;
+mod boxtree;
 mod configcheck;
+mod corrupt;
 mod indep;
 mod modea;
+mod modee;
 mod model;
 mod mux;
 mod panicx;
@@ -8,11 +12,16 @@ mod prng;
 mod props;
 mod runner;
 mod scenario;
+mod sched;
+mod seeds;
 mod simdisk;
 mod stats;
 mod verdict;
 
 use runner::{Prop, Tier};
+
+#[global_allocator]
+static GLOBAL: alloc::Counting = alloc::Counting;
 use std::path::Path;
 
 macro_rules! dispatch {
@@ -20,6 +29,9 @@ macro_rules! dispatch {
         match $id {
             "C01" => runner::$f::<props::c01::C01>($($args),*),
             "C02" => runner::$f::<props::c02::C02>($($args),*),
+            "C06" => runner::$f::<props::c06::C06>($($args),*),
+            "C07" => runner::$f::<props::c07::C07>($($args),*),
+            "C08" => runner::$f::<props::c08::C08>($($args),*),
             "C14" => runner::$f::<props::c14::C14>($($args),*),
             "C17" => runner::$f::<props::c17::C17>($($args),*),
             other => {
